@@ -9,6 +9,7 @@ Pre-emption points are the intercepted system calls (simfs, simnet, clock).
 from __future__ import annotations
 
 import hashlib
+import os
 import random
 import threading
 
@@ -401,6 +402,9 @@ class Sim:
                 pass
             except BaseException as e:  # noqa: BLE001 - actor outcome
                 a.exc = e
+                if os.environ.get("VERIF_DEBUG_TB"):
+                    import traceback
+                    traceback.print_exc()
         a.state = "done"
         if self.aborting:
             self.current = None
